@@ -42,6 +42,7 @@ Clause ==
 NumOutcomes == IF ~Valid THEN 0 ELSE Cardinality({o \in Outcomes(SP, C, Cfg) : ~o.err})
 TInit == tid \in 1..Len(Traces) /\ done = FALSE
 Advance == /\ ~done
+           /\ Clause \in STRING       \* evaluated here, outside the Serialize override: an evaluation error (overflow) is then TLC's, not a silent FALSE
            /\ Write([tid |-> T.id, kind |-> "final", l |-> 0, nrej |-> IF Clause = "" THEN 0 ELSE 1, clause |-> Clause,
                      status |-> T.cfg.rule, rule |-> T.cfg.rule, flags |-> <<>>, nout |-> NumOutcomes])
            /\ done' = TRUE /\ UNCHANGED tid
